@@ -28,6 +28,9 @@ CONFIGS = [
     ('UGrid', {'edges': 'none', 'transposed': True}, ['face', 'node']),
     ('UGrid', {'edges': 'both', 'edge_transposed': True, 'transposed': True}, ['face', 'node', 'edge']),
     ('UGrid', {'edges': 'dimension'}, ['face', 'node', 'edge']),
+    # tables that mention edges without the dataset having an edge dimension (no edge_dimension attribute, no edge table): no edge grid
+    ('UGrid', {'edges': 'none', 'tables': ('face_edge',)}, ['face', 'node']),
+    ('UGrid', {'edges': 'none', 'tables': ('face_edge', 'face_face')}, ['face', 'node']),
     # data variables stored ahead of the coordinates with x before y: Dataset.sizes lists the dimensions in another order than (y, x)
     ('CFGrid1D', {'leading': ('lon', 'lat')}, ['face']),
     ('CFGrid2D', {'first_var': ('leading', ('i', 'j'), {})}, ['face']),
